@@ -65,8 +65,17 @@ def adversarial(rng, L):
     ph = [dy(rng, -2, 0, 2) for _ in range(n)]
     pl = [v - lg.pick(rng, [F(1), F(-1, 2), F(-1), F(1, 2)]) for v in ph]      # some slots with p_l > p_h
     L['p_h'], L['p_l'] = ph, [min(v, F(0)) for v in pl]
+    if rng.random() < 0.5:
+      # the HIGH slope is assigned first (keyword order / setter order), within the class default p_l = -1, then a low slope above it
+      ph = [dy(rng, -1, 0, 2) for _ in range(n)]
+      L['p_h'], L['p_l'], L['ph_first'] = ph, [min(v + lg.pick(rng, [F(1, 4), F(1, 2), F(-1, 4)]), F(0)) for v in ph], True
+      L['post_set'] = lg.pick(rng, [None, ['p_l'], ['p_l', 'p_h']])
   elif cls == 'CDevice2':
     L['p_l'] = L['p_h'] + lg.pick(rng, [F(1, 2), F(-1, 2)]) if L['p_h'] <= F(-1, 2) else L['p_l']
+    if rng.random() < 0.5:
+      L['p_h'] = dy(rng, -1, F(-1, 4), 2)
+      L['p_l'], L['ph_first'] = min(L['p_h'] + lg.pick(rng, [F(1, 4), F(1, 2)]), F(0)), True
+      L['post_set'] = lg.pick(rng, [None, ['p_l'], ['p_l', 'p_h']])
   elif cls == 'CDevice':
     L['a'] = dy(rng, -2, 2, 2)
   elif cls == 'IDevice':
